@@ -23,9 +23,9 @@ Island1 == {d \in [topo : Topos, slack : SlackKinds, spos : SlackPos, pv : PVs, 
               ~(d.xs /\ d.pv)}                       \* the extra ext_grid and the PV gen would share template bus 2
 IslandA == [topo : Topos, slack : SlackKinds, spos : SlackPos, pv : PVsA, xs : {FALSE}, trafo : TrafoKindsA, load : LoadsA]
 \* second island: without transformers behind every first island; with (phase-shifting) transformers -- the island whose
-\* ppci bus numbers are NOT 0..n-1 -- behind the first islands that have an ext_grid slack and no PV gen / transformer
-\* (their topology and slack position, i.e. the numbering of roots and loops before the second island, stay free)
-PlainA(d) == d.slack = "ext_grid" /\ ~d.pv /\ d.trafo = "none"
+\* ppci bus numbers are NOT 0..n-1 -- behind the first islands that have an ext_grid slack and no PV gen (their topology,
+\* slack position and transformer kind, i.e. the numbering of roots and loops before the second island, stay free)
+PlainA(d) == d.slack = "ext_grid" /\ ~d.pv
 IslandB(d) == [topo : Topos2, slack : SlackKinds2, spos : SlackPos2, pv : PV2s, xs : {FALSE}, trafo : {"none"}, load : {d.load}]
               \cup (IF PlainA(d)
                     THEN [topo : Topos2, slack : SlackKinds2, spos : SlackPos2, pv : {FALSE}, xs : {FALSE},
